@@ -114,7 +114,22 @@ def oracle(script: dict, run: Any) -> List[Violation]:
             out.append(Violation("C12/not-exactly-once", f"delivery {d}: dependencies opened {o_ids} but finalised {c_ids}", d=d))
             continue
         if c_ids != list(reversed(o_ids)):
-            cls = "C12/order@uncached-subgraph" if unc else "C12/not-reverse-order"
+            cls = "C12/not-reverse-order"
+            if unc:
+                # known library behaviour: taskiq_dependencies closes sub-contexts (of use_cache=False dependencies) before the parent's
+                # own dependencies. Only pairs that belong to *different* resolve contexts can be explained that way; two dependencies
+                # of one context that are not finalised in reverse order are a violation even in such a graph.
+                ctx_of = {e[5]["inst"]: e[5].get("rctx") for e in opens}
+                o_inst = [e[5]["inst"] for e in opens]
+                c_pos = {c[5]["inst"]: j for j, c in enumerate(closes)}
+                same_ctx_bad = False
+                for a in range(len(o_inst)):
+                    for b in range(a + 1, len(o_inst)):
+                        ia, ib = o_inst[a], o_inst[b]
+                        if ia in c_pos and ib in c_pos and c_pos[ia] < c_pos[ib] and ctx_of[ia] == ctx_of[ib]:
+                            same_ctx_bad = True
+                if not same_ctx_bad:
+                    cls = "C12/order@uncached-subgraph"
             out.append(Violation(cls, f"delivery {d}: dependencies opened in order {o_ids} but finalised in order {c_ids} (expected the reverse)", d=d))
         fx = h.first(d, "fn_exit")
         df = h.first(d, "dep_fail")
